@@ -31,7 +31,7 @@ def plan_config(rng, nmax=30000, klass=None):
     Jdes>=1, Kdes>=1.  `klass` selects a boundary-seeking class (None = random mix)."""
     classes = ["random", "random", "random", "tiny-N", "dense-overlap", "Lmin-eq-N",
                "bmin-large", "Jdes-1", "Kdes-1", "short-segments", "Lmin-large",
-               "kaiser-default-olap", "many-segments", "navg-tie", "round-olap"]
+               "kaiser-default-olap", "many-segments", "navg-tie", "round-olap", "round-numbers"]
     if klass is None:
         klass = classes[int(rng.integers(len(classes)))]
     if klass == "tiny-N":
@@ -77,6 +77,18 @@ def plan_config(rng, nmax=30000, klass=None):
         Jdes = int(rng.choice([2, 5, 10]))
         Kdes = int(rng.choice([10, 100]))
         bmin = 1.0
+    elif klass == "round-numbers":
+        # the numbers people type: record lengths, rates and minimum lengths that divide each
+        # other, so that steps fs/L are exactly representable and frequency walks can land
+        # bit-exactly on special values (Nyquist, a grid point)
+        N = int(rng.choice([64, 100, 256, 500, 512, 1000, 1024, 2000, 2048, 4096, 5000, 8192, 10000]))
+        fs = float(rng.choice([1.0, 2.0, 10.0, 100.0, 1000.0, 0.5, 256.0, 1024.0]))
+        olap = float(rng.choice([0.0, 0.25, 0.5, 0.75]))
+        div = int(rng.choice([1, 2, 4, 5, 8, 10, 16, 20]))
+        Lmin = int(rng.choice([1, 1, max(1, N // div), max(1, N // div), 100, 250, 256]))
+        Jdes = int(rng.choice([1, 2, 4, 8, 10, 16, 50, 100, 1000]))
+        Kdes = int(rng.choice([1, 2, 10, 100]))
+        bmin = float(rng.choice([1.0, 1.0, 2.0, 4.0]))
     elif klass in ("navg-tie", "round-olap"):
         # overlaps that are short decimals / simple fractions; for "navg-tie" the record length is
         # chosen so that a bin at L = Lmin has (N-L)/((1-olap)L) exactly half-integer: the nominal
